@@ -6,6 +6,7 @@ package core
 
 import (
 	"bytes"
+	"encoding/gob"
 	"fmt"
 	"io"
 	gorpc "net/rpc"
@@ -27,6 +28,12 @@ func TestVerifC16Core(t *testing.T) {
 	}
 	defer vw.Finish("C16core")
 	root := vw.NewRng(vw.Seed() ^ 0xC16C0)
+	// fix gob's process-wide type numbering so that a case replayed alone sends the same bytes
+	for _, v := range []interface{}{&gorpc.Request{}, &gorpc.Response{}, &CreateTractReq{}, &WriteReq{}, &ReadReply{}} {
+		if err := gob.NewEncoder(&bytes.Buffer{}).Encode(v); err != nil {
+			t.Fatal(err)
+		}
+	}
 	sizes := []int{0, 1, 2, 4095, 4096, 4097, 128*1024 + 65536, 128*1024 + 65536 + 1, 1<<20 + 65536, 1<<20 + 65536 + 1}
 	if vw.Thorough() {
 		sizes = append(sizes, 4<<20, 4<<20+65536+1, 8<<20, 8<<20+65536+1)
@@ -109,6 +116,9 @@ func TestVerifC16Core(t *testing.T) {
 				}
 			case 3:
 				buf = make([]byte, n/2, n+r.Intn(100))
+			}
+			if n == 0 && r.Bool() {
+				buf = []byte{0xEE, 0xEE, 0xEE, 0xEE}[:r.Range(1, 4)] // a used buffer left in the body of a message without payload
 			}
 			det := map[string]interface{}{"index": i, "kind": m.kind, "payload_len": n, "bufcap": cap(buf)}
 			var got []byte
